@@ -327,7 +327,63 @@ def r7_schema_only_writes(ctx, rep):
         raise AnalysisError("no setattr on the settings object found")
 
 
+def r4_path_rooting(ctx, rep):
+    py = ctx.py
+    fields = schema(py, "ProjectSettings")
+    np = py.func("ProjectSettings.normalise_paths")
+    t = ast.unparse(np)
+    ok = "self.directory = Path(directory).absolute()" in t
+    rep.ob("normalise_paths: the project directory is made absolute first", ok, "", py.nloc(np))
+    n = 0
+    for st in ast.walk(np):
+        if isinstance(st, ast.Assign) and isinstance(st.targets[0], ast.Attribute) and \
+                ast.unparse(st.targets[0].value) == "self" and st.targets[0].attr in fields and \
+                "Path" in fields[st.targets[0].attr] and st.targets[0].attr != "directory":
+            n += 1
+            v = ast.unparse(st.value)
+            rooted = "self.directory" in v or "__file__" in v or "normalise_path(" in v or "self.output_dir" in v
+            rep.ob(f"normalise_paths: self.{st.targets[0].attr} = {v[:40]}", rooted,
+                   "value is rooted at the absolute project directory (or the package)" if rooted else
+                   f"`self.{st.targets[0].attr} = {v}` stores the raw `directory` argument; the generic loop then joins it onto "
+                   f"the project directory again: with `ford sub/proj.md` the path becomes <cwd>/sub/sub", py.nloc(st))
+    loop = [x for x in ast.walk(np) if isinstance(x, ast.For) and "asdict(self).items()" in ast.unparse(x.iter)]
+    ok = bool(loop) and "is_same_type(default_type, List[Path])" in ast.unparse(loop[0]) and \
+        "is_same_type(default_type, Path)" in ast.unparse(loop[0]) and "normalise_path(self.directory" in ast.unparse(loop[0])
+    rep.ob("normalise_paths: every Path / List[Path] field is normalised against the project directory", ok, "", py.nloc(np))
+    u = py.func("utils.normalise_path")
+    ok = "base_dir / os.path.expandvars(path)" in ast.unparse(u)
+    rep.ob("normalise_path joins onto the base directory (absolute inputs win)", ok, "", py.nloc(u))
+    if n == 0:
+        raise AnalysisError("normalise_paths: no direct path assignments found")
+
+
+def r8_metadata_grammar(ctx, rep):
+    """markdown metadata: a line is either `key: value` (indent < 4) or a continuation (indent >= 4) -
+    the two recognisers must be disjoint, otherwise `    word: text` continuation lines open new keys."""
+    py, rx = ctx.py, ctx.rx
+    mp, mf, mnode, _ = ctx.regexes["utils.META_RE"]
+    cp, cf, cnode, _ = ctx.regexes["utils.META_MORE_RE"]
+    M, C = rx.match_lang(mp, mf), rx.match_lang(cp, cf)
+    w = rx.disjoint_witness(M, C)
+    rep.ob("META_RE and META_MORE_RE are disjoint", w is None,
+           "key lines (indent 0-3) and continuation lines (indent >= 4) cannot be confused" if w is None else
+           f"`{w}` is matched both as a new key line and as a continuation line; META_RE is tried first, so an indented "
+           f"continuation such as `    json: http://...` (second entry of a key/value option) becomes an unknown key",
+           py.nloc(mnode), witness=w)
+    ref_key = rx.full(r"[ ]{0,3}[A-Za-z0-9_-]+:.*", 0)
+    w = rx.subset_witness(ref_key, M)
+    rep.ob("every `key: value` line with indent <= 3 is a key line", w is None, "" if w is None else f"`{w}`", py.nloc(mnode), witness=w)
+    ref_more = rx.full(r"[ ]{4}[ ]*[^ ].*", 0)
+    w = rx.subset_witness(ref_more, C)
+    rep.ob("every line indented >= 4 is a continuation line", w is None, "" if w is None else f"`{w}`", py.nloc(cnode), witness=w)
+    fn = py.func("utils.meta_preprocessor")
+    ok = "key = m1.group('key').lower().strip()" in ast.unparse(fn)
+    rep.ob("metadata keys are lower-cased", ok, "", py.nloc(fn))
+
+
 RULES = [
+    RuleSpec("C15.R4", r4_path_rooting, "relative paths are rooted at the project file's directory", floor=4),
+    RuleSpec("C15.R8", r8_metadata_grammar, "markdown metadata grammar: key lines vs continuation lines", floor=4),
     RuleSpec("C15.R1", r1_stale_derived, "no stale derived state after post-construction assignment", floor=8),
     RuleSpec("C15.R2", r2_conversion, "conversion is exhaustive and table-consistent", floor=60),
     RuleSpec("C15.R3", r3_rejections_name_option, "rejections name the option", floor=4),
